@@ -305,6 +305,11 @@ func (e *Exec) addrOf(x ast.Expr) Val {
 		}
 		p := iv(e.allocRef("box." + id.Name))
 		e.st.vars[key] = p
+		// the pointee holds the variable's current value (reads through the pointer see it as long as the variable
+		// is not assigned afterwards; the variable itself is forgotten at calls)
+		if cur, ok := e.st.vars[obj]; ok && t != nil {
+			e.storeDeref(p, t, cur)
+		}
 		e.warn("address of scalar local %s taken: variable is havoc'd at calls", id.Name)
 		if fr := e.frame(); fr != nil {
 			e.st.vars["boxed:"+keyString(obj)] = bv(tTrue)
@@ -668,10 +673,10 @@ func (e *Exec) evIndex(x *ast.IndexExpr) Val {
 		}
 		k := e.mapKey(e.ev(x.Index), u.Key())
 		v := e.mapRead(m.T, k, u.Elem())
+		e.refFacts(v, u.Elem())
 		if tu, ok := e.typeOf(x).(*types.Tuple); ok && tu.Len() == 2 {
 			return TupleV{v, bv(e.mapHas(m.T, k))}
 		}
-		e.refFacts(v, u.Elem())
 		return v
 	case *types.Slice, *types.Array:
 		s, ok := base.(SliceV)
